@@ -12,6 +12,7 @@ optionally BenchmarkActor/BenchmarkCoordinator) — validation machinery for C01
 from __future__ import annotations
 
 import asyncio
+import concurrent.futures
 import collections
 import datetime
 import heapq
@@ -62,6 +63,8 @@ class VLoop(asyncio.SelectorEventLoop):
 
 
 class SimFuture:
+    """concurrent.futures.Future as the actors use it (done / running / exception / result with a timeout)"""
+
     def __init__(self):
         self._done = False
         self._exc = None
@@ -73,14 +76,39 @@ class SimFuture:
         return not self._done
 
     def exception(self, timeout=None):
+        if not self._done:
+            if timeout is not None:
+                raise concurrent.futures.TimeoutError()
+            raise RuntimeError("SimFuture.exception() would block")
         return self._exc
 
     def result(self, timeout=None):
         if not self._done:
+            if timeout is not None:
+                raise concurrent.futures.TimeoutError()
             raise RuntimeError("SimFuture.result() would block")
         if self._exc:
             raise self._exc
         return None
+
+
+# exception classes an injected fault may have (scenario['fault_exc']); what goes wrong must not depend on the class
+FAULT_CLASSES = ["RuntimeError", "TimeoutError", "socket.timeout", "concurrent.futures.TimeoutError", "asyncio.TimeoutError", "OSError",
+                 "KeyError", "AssertionError", "esrally.exceptions.RallyError", "esrally.exceptions.DataError", "ZeroDivisionError"]
+
+
+def injected(msg):
+    """the exception of an injected fault, of the class the scenario asks for"""
+    name = (SIM.scenario.get("fault_exc") if SIM is not None else None) or "RuntimeError"
+    import socket
+    import esrally.exceptions
+
+    classes = {"RuntimeError": RuntimeError, "TimeoutError": TimeoutError, "socket.timeout": socket.timeout,
+               "concurrent.futures.TimeoutError": concurrent.futures.TimeoutError, "asyncio.TimeoutError": asyncio.TimeoutError,
+               "OSError": OSError, "KeyError": KeyError, "AssertionError": AssertionError, "ZeroDivisionError": ZeroDivisionError,
+               "esrally.exceptions.RallyError": esrally.exceptions.RallyError, "esrally.exceptions.DataError": esrally.exceptions.DataError}
+    cls = classes[name]
+    return cls(msg)
 
 
 class SimPool:
@@ -189,7 +217,7 @@ class SimRunner:
         if fault:
             self.sim.fault_time = self.sim.clock if self.sim.fault_time is None else self.sim.fault_time
         if fault == "runner-raises":
-            raise RuntimeError("runner fault (injected)")
+            raise injected("runner fault (injected)")
         svc = self.sim.service_time(name, es.client_id, n)
         await es.sim_request(name, svc, fail=fault, parent=params.get("parent"))
         return {"weight": params.get("weight", 1), "unit": "ops", "success": True}
@@ -242,7 +270,7 @@ def make_param_source_class(sim):
             self._n = n + 1
             if SIM.fault_plan.get(("params", self._p["task"], getattr(self, "_idx", 0), n)):
                 SIM.fault_time = SIM.clock if SIM.fault_time is None else SIM.fault_time
-                raise RuntimeError("parameter source fault (injected)")
+                raise injected("parameter source fault (injected)")
             return dict(self._p)
 
     return SimParamSource
@@ -579,7 +607,7 @@ class SimProcessor:
     def _task(self, k):
         if self.sim.fault_plan.get(("prep", k)):
             self.sim.fault_time = self.sim.clock if self.sim.fault_time is None else self.sim.fault_time
-            raise RuntimeError(f"track preparation task {k} failed (injected)")
+            raise injected(f"track preparation task {k} failed (injected)")
 
 
 class SimProcessorRegistry:
@@ -677,7 +705,7 @@ class Sim:
                 n[0] += 1
                 if sim.fault_plan.get(("rc-store", n[0])):
                     sim.fault_time = sim.clock if sim.fault_time is None else sim.fault_time
-                    raise RuntimeError("race control metrics store failed (injected)")
+                    raise injected("race control metrics store failed (injected)")
                 return orig_bulk_add(memento)
 
             coord.metrics_store.bulk_add = bulk_add
@@ -970,7 +998,7 @@ class Sim:
             n[0] += 1
             if sim.fault_plan.get(("store", n[0])):
                 sim.fault_time = sim.clock if sim.fault_time is None else sim.fault_time
-                raise RuntimeError("metrics store failed while storing samples (injected)")
+                raise injected("metrics store failed while storing samples (injected)")
             return orig(*a, **k)
 
         d.metrics_store.put_value_cluster_level = put
